@@ -151,7 +151,7 @@ def cases(tier, seed, focus):
     out += real
     first, second = [], []
     for cmd in ("ode2py", "ode2c"):  # a pyproject.toml in a directory that is not a project root (no .git, no [tool.black])
-        first.append(mk(cmd, ms[0], {}, {"mode": "pyproject-bare", "data": {"scheme": ["explicit_euler"], "delta": 1e-5}}, tag="pyproject-not-found"))
+        out.append(mk(cmd, ms[0], {}, {"mode": "pyproject-bare", "data": {"scheme": ["explicit_euler"], "delta": 1e-5}}, tag="pyproject-not-found"))
     for cmd in ("ode2py", "ode2c", "convert"):
         A = atoms(cmd, ["x", "y"])
         first.append(mk(cmd, ms[0], {}, tag="plain"))
@@ -551,4 +551,6 @@ def first_diff(a, b):
     return f"API {len(la)} lines vs CLI {len(lb)} lines"
 
 
-run, replay = cm.make_api(globals())
+from oracles._b_helpers import scoped_api  # noqa: E402
+
+run, replay = scoped_api(globals(), "c18run_")
